@@ -190,7 +190,11 @@ func CloneNode(node ast.Node) ast.Node {
 		return imp
 
 	case *ast.Label:
-		return ast.NewLabel(ClonePosition(n.Position), CloneExpression(n.Ident).(*ast.Identifier), CloneNode(n.Statement))
+		var statement ast.Node
+		if n.Statement != nil {
+			statement = CloneNode(n.Statement)
+		}
+		return ast.NewLabel(ClonePosition(n.Position), CloneExpression(n.Ident).(*ast.Identifier), statement)
 
 	case *ast.Package:
 		var nn = make([]ast.Node, 0, len(n.Declarations))
@@ -200,7 +204,11 @@ func CloneNode(node ast.Node) ast.Node {
 		return ast.NewPackage(ClonePosition(n.Position), n.Name, nn)
 
 	case *ast.Raw:
-		return ast.NewRaw(ClonePosition(n.Position), n.Marker, n.Tag, CloneNode(n.Text).(*ast.Text))
+		var text *ast.Text
+		if n.Text != nil {
+			text = CloneNode(n.Text).(*ast.Text)
+		}
+		return ast.NewRaw(ClonePosition(n.Position), n.Marker, n.Tag, text)
 
 	case *ast.Return:
 		var values []ast.Expression
